@@ -25,12 +25,19 @@ def _records(bc, co, opc):
         cells, line_starts = bc._cell_names, bc._linestarts
     else:
         cells, line_starts = None, None
+    # jump targets computed without Bytecode's own glue: the label finder of the table plus, from 3.11, the handler targets of the
+    # code object's exception table
+    indep = set(opc.findlabels(co.co_code, opc))
+    if opc.version_tuple >= (3, 11) and getattr(co, "co_exceptiontable", None):
+        from xdis.bytecode import parse_exception_table
+        for e in parse_exception_table(co.co_exceptiontable):
+            indep.add(e.target)
     recs = []
     for x in get_instructions_bytes(co.co_code, opc, co.co_varnames, co.co_names, co.co_consts, cells, line_starts,
                                     line_offset=bc._line_offset, exception_entries=bc.exception_entries):
         recs.append({"off": x.offset, "op": x.opcode, "name": x.opname, "arg": x.arg, "repr": _noaddr(x.argrepr if isinstance(x.argrepr, str) else repr(x.argrepr)) if x.argrepr else "",
                      "argval": x.argval if isinstance(x.argval, int) and not isinstance(x.argval, bool) else None,
-                     "target": bool(x.is_jump_target), "line": x.starts_line, "size": x.inst_size, "hasarg": bool(x.has_arg)})
+                     "target": bool(x.is_jump_target), "target_indep": x.offset in indep, "line": x.starts_line, "size": x.inst_size, "hasarg": bool(x.has_arg)})
     return recs
 
 
@@ -85,8 +92,13 @@ def op_listing_file(c):
             bc = Bytecode(k, opc, dup_lines=True)
             text = bc.dis(asm_format=fmt)
             exp.write(text + "\n")
-            if vt >= (3, 11) and bc.exception_entries not in (None, []):
-                exp.write(format_exception_table(bc, vt) + "\n")
+            if vt >= (3, 11) and getattr(k, "co_exceptiontable", None):
+                from xdis.bytecode import parse_exception_table
+
+                class _Shim(object):
+                    exception_entries = parse_exception_table(k.co_exceptiontable)
+                if _Shim.exception_entries:
+                    exp.write(format_exception_table(_Shim, vt) + "\n")
             recs = _records(bc, k, opc) if c.get("pieces") else []
             if not c.get("pieces"):
                 pass
